@@ -34,6 +34,7 @@ MIN_REACH = {
     "roundtrips": {"quick": 250, "thorough": 4000},
     "lazy_loads": {"quick": 60, "thorough": 1000},
     "merge_twice": {"quick": 50, "thorough": 800},
+    "harvester_syncs_with_a_per_call_engine": {"quick": 20, "thorough": 300},
     "loads_with_create_new": {"quick": 100, "thorough": 1500},
     "merges_adding_fractional_labels_to_integer_axis": {"quick": 4, "thorough": 60},
     "merges_adding_longer_labels_to_a_string_axis": {"quick": 3, "thorough": 50},
@@ -266,9 +267,16 @@ def run_case(ctx, case):
                 if d:
                     bad.append(("roundtrip", "load_ds after save_merge_ds differs: " + d))
         else:
-            h = xyzpy.Harvester(None, data_name=path, engine=engine)
-            with quiet():
-                h.add_ds(ds)
+            if case["dseed"] % 2:
+                h = xyzpy.Harvester(None, data_name=path, engine=engine)
+                with quiet():
+                    h.add_ds(ds)
+            else:
+                # the engine is named at the call, not at construction: saving, loading and naming must all follow it
+                h = xyzpy.Harvester(None, data_name=path)
+                with quiet():
+                    h.add_ds(ds, engine=engine)
+                ctx.count("harvester_syncs_with_a_per_call_engine")
             listing_ok("Harvester.add_ds")
             with quiet():
                 back = xyzpy.load_ds(path, engine=engine)
